@@ -1,6 +1,7 @@
 import SaModel.Props.C18
 import SaModel.Props.C01Complete
 import SaModel.Lemmas.C18BlamePush
+import SaModel.Lemmas.C18BlameRaw
 /-
 C18 — blame against the SPECIFICATION (serializer side).
 
@@ -59,6 +60,27 @@ theorem C18_ser_blame_record (ext : Ext) [ExtPlain ext] (fields : List Field) (r
       ann = [("data_type", label), ("field", render "$" segs)] ∧ render "$" segs ∈ blameRow ext fields x :=
   C18_ser_blame ext (.struct (Fields.ofList fields)) "$" false [] root0 (by simpa [newRoot, newDT] using h0) rows root hb
     x hwf hsafe hshape htot hraw hcap msg ann h
+
+/-- **C18_ser_blame_raw** (the one step beyond `noRaw`): the value is a WELL-FORMED raw stream of `serialize_key` /
+`serialize_value` calls (`isAlternating ops`: what serde's default `serialize_entry` issues) whose keys and values carry
+no further raw streams.  For the builders, for `Spec.interpDT` and for `Spec.blameDT` such a stream IS the map of its
+entries (`push_mapRaw_alt`, `interpDT_mapRaw_alt`, `blameDT_mapRaw_alt`; a struct builder must have fewer than
+`usize::MAX` fields, so that a field index is never the `UNKNOWN_KEY` marker), hence `C18_ser_blame` applies; the capacity
+hypothesis is stated for the entries (`vsize (.mapRaw _)` does not measure them).  Malformed streams have no meaning
+(`blameDT = []`, C16) and are outside; so are raw streams nested below the top-level value. -/
+theorem C18_ser_blame_raw (ext : Ext) [ExtPlain ext] (dt : DataType) (path : String) (n : Bool) (md : Metadata)
+    (b0 : B) (h0 : newDT path dt n md = .ok b0) (rows : List SVal) (b : B) (hb : rows.foldlM (push ext) b0 = .ok b)
+    (ops : SMapOps) (halt : isAlternating ops = true)
+    (hwf : WFB b) (hsafe : Safe b) (hshape : Shape b dt n md) (htot : total dt n md = true)
+    (hraw : noRawe (toEntries ops) = true) (hcap : NoCap ext b (.map (toEntries ops)))
+    (hbig : ∀ p len v fs c nx sn, b = .struct p len v fs c nx sn → fs.length ≤ UNKNOWN_KEY)
+    (msg : String) (ann : List (String × String)) (h : push ext b (.mapRaw ops) = .error (.errCtx msg ann)) :
+    ∃ segs label, (segs, label) ∈ segsDT dt md ∧ ann = [("data_type", label), ("field", render path segs)] ∧
+      render path segs ∈ blameDT ext path dt n md (.mapRaw ops) := by
+  rw [push_mapRaw_alt ext b ops halt hbig] at h
+  rw [blameDT_mapRaw_alt ext path dt n md ops halt]
+  exact C18_ser_blame ext dt path n md b0 h0 rows b hb (.map (toEntries ops)) hwf hsafe hshape htot
+    (by simpa [noRaw] using hraw) hcap msg ann h
 
 /-! ### non-vacuity -/
 
@@ -138,6 +160,17 @@ example :
   ⟨by decide +kernel, by decide +kernel, by decide +kernel, by decide +kernel, by decide +kernel, by decide +kernel,
    by decide +kernel, by decide +kernel, by decide +kernel, by decide +kernel,
    by decide, by decide, by decide, by decide, by decide, by decide, by decide, by decide, by decide⟩
+
+/-- non-vacuity of `C18_ser_blame_raw`: the row as a raw stream `key "a", value "s"` — well-formed, `a: Int32` refuses the
+string; and a malformed stream (two keys) has no blamed position -/
+example :
+    isAlternating (.key (.str "a") (.value (.str "s") .nil)) = true ∧
+    blameRow {} exSchema2 (.mapRaw (.key (.str "a") (.value (.str "s") .nil))) = ["$.a"] ∧
+    (do let root ← newRoot exSchema2; push {} root (.mapRaw (.key (.str "a") (.value (.str "s") .nil)))) =
+      .error (.errCtx "serialize_str is not supported" [("data_type", "Int32"), ("field", "$.a")]) ∧
+    noRawe (toEntries (.key (.str "a") (.value (.str "s") .nil))) = true ∧
+    blameRow {} exSchema2 (.mapRaw (.key (.str "a") (.key (.str "m") .nil))) = [] :=
+  ⟨by decide, by decide +kernel, by decide +kernel, by decide, by decide +kernel⟩
 
 /-! ### the cell `tuple_variant_list_cell`: a tuple variant presented to a variant whose column is a LIST -/
 
